@@ -84,7 +84,7 @@ static void case_valid(const Args &a, long idx, bool wantDesc, CaseResult &res) 
         End e[2];
         for (int k = 0; k < 2; k++) {
             int kind = R.coin(0.7) ? 0 : (R.coin(0.5) ? 1 : 2);
-            if ((buffer || S.orthogonal) && kind == 1) kind = 0;   // the orthogonal router works on bounding boxes: a point on a box border counts as inside it
+            if ((buffer || (S.orthogonal && R.coin(0.5))) && kind == 1) kind = 0;   // the orthogonal router works on bounding boxes: a point on the border of a box is outside it, one strictly inside the box is inside the shape
             e[k].kind = kind; e[k].shape = -1;
             if (kind == 0) { IP q, dummy; if (!genFreeEndpoints(R, S, 0, 420, margin, q, dummy)) { kind = 2; e[k].kind = 2; } else e[k].p = q; }
             if (kind == 1) { int s = (int)R.ri(0, (long)S.shapes.size() - 1); const IPoly &pl = S.shapes[s].poly; size_t v = (size_t)R.ri(0, (long)pl.size() - 1); IP p = pl[v], q = pl[(v + 1) % pl.size()]; if (R.coin(0.5) && ((p.x + q.x) % 2 == 0) && ((p.y + q.y) % 2 == 0)) e[k].p = IP{(p.x + q.x) / 2, (p.y + q.y) / 2}; else e[k].p = p; e[k].shape = s; }
@@ -131,14 +131,17 @@ static void case_valid(const Args &a, long idx, bool wantDesc, CaseResult &res) 
         if (r.size() < 2) { res.violate("route-too-short", wit("fewer than 2 points")); continue; }
         if (!allFinite(r)) { res.violate("route-non-finite", wit("non-finite coordinate")); continue; }
         // attachments
-        DP want[2]; std::vector<char> exempt(S.shapes.size(), 0);
+        DP want[2]; std::vector<char> exempt(S.shapes.size(), 0), onBorder(S.shapes.size(), 0);
+        // the sight lines of an end on a shape's border are part of the shared orthogonal visibility graph: any connector may ride them (F96)
+        if (S.orthogonal) for (auto &pr : ends) for (const End *q : {&pr.first, &pr.second}) if (q->kind != 2) for (size_t s = 0; s < S.shapes.size(); s++) { ll x0, y0, x1, y1; bbox(S.shapes[s].poly, x0, y0, x1, y1); if (q->p.x >= x0 && q->p.x <= x1 && q->p.y >= y0 && q->p.y <= y1 && !(q->p.x > x0 && q->p.x < x1 && q->p.y > y0 && q->p.y < y1)) onBorder[s] = 1; }
         IP ipEnd[2]; bool intEnd[2];
         for (int k = 0; k < 2; k++) {
             const End &e = k ? ends[c].second : ends[c].first;
             if (e.kind == 2) {
                 ll x0, y0, x1, y1; bbox(S.shapes[e.shape].poly, x0, y0, x1, y1);
                 want[k] = DP{(x0 + x1) / 2.0, (y0 + y1) / 2.0}; exempt[e.shape] = 1; intEnd[k] = true; ipEnd[k] = IP{2 * (x0 + x1), 2 * (y0 + y1)};   // x4 coordinates
-            } else { want[k] = dp(e.p); intEnd[k] = true; ipEnd[k] = IP{4 * e.p.x, 4 * e.p.y}; for (size_t s = 0; s < S.shapes.size(); s++) if (ptInClosed(e.p, S.shapes[s].poly)) exempt[s] = 1; }
+            } else { want[k] = dp(e.p); intEnd[k] = true; ipEnd[k] = IP{4 * e.p.x, 4 * e.p.y}; for (size_t s = 0; s < S.shapes.size(); s++) { if (S.orthogonal) { ll x0, y0, x1, y1; bbox(S.shapes[s].poly, x0, y0, x1, y1); bool inBox = e.p.x >= x0 && e.p.x <= x1 && e.p.y >= y0 && e.p.y <= y1, strictly = e.p.x > x0 && e.p.x < x1 && e.p.y > y0 && e.p.y < y1;
+                    if (inBox && !strictly) { onBorder[s] = 1; res.count("orthogonal_endpoints_on_a_shape_border"); } else if (strictly && ptInClosed(e.p, S.shapes[s].poly)) exempt[s] = 1; } else if (ptInClosed(e.p, S.shapes[s].poly)) exempt[s] = 1; } }
         }
         const Avoid::Point &f = r.ps[0], &l = r.ps[r.size() - 1];
         if (f.x != want[0].x || f.y != want[0].y) res.violate("source-attachment-mismatch", wit("first route point differs from source attachment"));
@@ -159,11 +162,11 @@ static void case_valid(const Args &a, long idx, bool wantDesc, CaseResult &res) 
             bool inEndpointCluster = false;
             {
                 std::vector<char> seen(S.shapes.size(), 0); std::vector<size_t> st;
-                for (size_t s = 0; s < S.shapes.size(); s++) if (exempt[s]) { seen[s] = 1; st.push_back(s); }
+                for (size_t s = 0; s < S.shapes.size(); s++) if (exempt[s] || onBorder[s]) { seen[s] = 1; st.push_back(s); }
                 auto box = [&](size_t k) { ll x0, y0, x1, y1; bbox(S.shapes[k].poly, x0, y0, x1, y1); return rectPoly(x0, y0, x1, y1); };
                 // the orthogonal router works on bounding boxes, so there "touching" means touching boxes
                 while (!st.empty()) { size_t u = st.back(); st.pop_back(); for (size_t v = 0; v < S.shapes.size(); v++) if (!seen[v] && (S.orthogonal ? closedIntersect(box(u), box(v)) : closedIntersect(S.shapes[u].poly, S.shapes[v].poly))) { seen[v] = 1; st.push_back(v); } }
-                bool clusterNontrivial = false; for (size_t v = 0; v < S.shapes.size(); v++) if (seen[v] && !exempt[v]) clusterNontrivial = true;
+                bool clusterNontrivial = false; for (size_t v = 0; v < S.shapes.size(); v++) if (seen[v] && !exempt[v] && !onBorder[v]) clusterNontrivial = true;
                 // either the crossed shape is in the cluster, or the route is the 2-point straight-line fallback the router resorts to
                 // when the end inside the hemmed-in shape finds no exit
                 inEndpointCluster = seen[hit] || (clusterNontrivial && r.size() == 2);
@@ -184,7 +187,7 @@ static void case_valid(const Args &a, long idx, bool wantDesc, CaseResult &res) 
                 }
                 degenerate = any && !proper;
             }
-            const char *sfx = inEndpointCluster ? ":route-through-shape-touching-endpoint-shape-cluster" : degenerate ? ":route-through-shape-without-properly-crossing-an-edge" : ":route-through-shape";
+            const char *sfx = onBorder[hit] ? ":route-through-shape[a-connector-end-lies-on-that-shape's-border]" : inEndpointCluster ? ":route-through-shape-touching-endpoint-shape-cluster" : degenerate ? ":route-through-shape-without-properly-crossing-an-edge" : ":route-through-shape";
             if (exists) res.violate(std::string(S.orthogonal ? "orthogonal" : "polyline") + sfx, JObj().i("connector", (long)c).i("shape", hit).i("segment", (long)seg).raw("displayRoute", routej(r)).raw("rawRoute", routej(conns[c]->route())).raw("case", desc).done());
             else res.count("no_clear_path_fallback_accepted");
         }
@@ -271,6 +274,21 @@ static void case_ortho(const Args &a, long idx, bool wantDesc, CaseResult &res) 
         if (masks) { cs.srcDirs = (unsigned)R.ri(1, 15); cs.dstDirs = (unsigned)R.ri(1, 15); if (cs.srcDirs == 15 && cs.dstDirs == 15) cs.srcDirs = (unsigned)R.ri(1, 14); }
         S.conns.push_back(cs);
     }
+    // (3) bystanders: next to the judged all-direction connectors, 1-2 connectors with direction-restricted ends that start on the lines the judged ones
+    // would like to use.  Connectors do not interact (no crossing or shared-path penalty), so the judged ones must still reach their optimum.
+    std::vector<char> bystander(S.conns.size(), 0);
+    if (!masks && !S.conns.empty() && R.coin(0.35)) {
+        int nb = (int)R.ri(1, 2); size_t judged = S.conns.size();
+        for (int b = 0; b < nb; b++) {
+            const ConnSpec &j = S.conns[(size_t)R.ri(0, (long)judged - 1)]; ConnSpec cs; IP dummy;
+            ll lx = std::min(j.src.x, j.dst.x), hx = std::max(j.src.x, j.dst.x), ly = std::min(j.src.y, j.dst.y), hy = std::max(j.src.y, j.dst.y);
+            int w = (int)R.ri(0, 3); cs.src = w == 0 ? IP{j.src.x, R.ri(ly, hy)} : w == 1 ? IP{R.ri(lx, hx), j.src.y} : w == 2 ? IP{j.dst.x, R.ri(ly, hy)} : IP{R.ri(lx, hx), j.dst.y};
+            if (!pointFree(S, cs.src, 1) || cs.src == j.src || cs.src == j.dst) continue;
+            if (!genFreeEndpoints(R, S, 0, 420, 1, dummy, cs.dst) || cs.dst == cs.src) continue;
+            cs.srcDirs = (unsigned)R.ri(1, 14); cs.dstDirs = R.coin() ? 15u : (unsigned)R.ri(1, 14);
+            S.conns.push_back(cs); bystander.push_back(1); res.count("bystander_connectors_with_direction_masks");
+        }
+    }
     if (S.conns.empty()) { res.inconclusive = "no-connectors"; return; }
     res.gen = "pen" + std::to_string((int)pen) + (snap == 10 ? "/lattice" : "/free"); res.digest = scene_digest(S);
     std::string desc = scene_json(S); if (wantDesc) res.desc = desc;
@@ -289,6 +307,7 @@ static void case_ortho(const Args &a, long idx, bool wantDesc, CaseResult &res) 
     for (size_t c = 0; c < S.conns.size(); c++) {
         const Avoid::PolyLine &raw = B.conns[c]->route(); const Avoid::PolyLine &disp = B.conns[c]->displayRoute();
         auto wit = [&](double cost, double opt, int b) { return JObj().i("connector", (long)c).num("route_cost", cost).i("route_bends", b).num("oracle_cost", opt).num("segmentPenalty", pen).raw("rawRoute", routej(raw)).raw("displayRoute", routej(disp)).raw("case", desc).done(); };
+        if (bystander[c]) continue;
         res.count("routes_judged");
         bool diag = false;
         for (int w = 0; w < 2; w++) { const Avoid::PolyLine &r = w ? disp : raw; for (size_t i = 1; i < r.size(); i++) if (r.ps[i].x != r.ps[i - 1].x && r.ps[i].y != r.ps[i - 1].y) diag = true; }
@@ -321,7 +340,7 @@ static void case_ortho(const Args &a, long idx, bool wantDesc, CaseResult &res) 
             }
         }
         if (blocked) res.violate("raw-route-through-rectangle", wit(cost, opt, b));
-        else if (cost > opt + 1e-6) res.violate(dirsRestricted ? "direction-masks:costlier-than-grid-optimum" : "costlier-than-optimum", wit(cost, opt, b));
+        else if (cost > opt + 1e-6) res.violate(dirsRestricted ? "direction-masks:costlier-than-grid-optimum" : bystander.size() > 0 && bystander.back() ? "costlier-than-optimum[another-connector-of-the-scene-has-direction-restricted-ends]" : "costlier-than-optimum", wit(cost, opt, b));
         else if (cost < opt - 1e-6) res.violate(dirsRestricted ? "direction-masks:cheaper-than-grid-optimum" : "cheaper-than-oracle", wit(cost, opt, b));
     }
     res.nontrivial = nt;
